@@ -761,6 +761,19 @@ fn c10(scn: &Scenario, rf: &Ref, ex: &Exec, out: &mut Vec<Finding>) {
             *per_slot.entry(e.slot).or_insert(0) += 1;
         }
     }
+    // "independent of how much input remains": whatever chunk a thread was handed, what it may still process
+    // after early exit is bounded by what had been claimed from the source before (a chunk may grow with the
+    // progress made so far, never with the input that is left)
+    // (claims made before the thread in question was spawned: its own claim does not count)
+    let claimed_before_reg = |slot: u16| -> usize {
+        let reg = flog.iter().position(|e| e.kind == Kind::WorkerReg && e.a == slot as u64).unwrap_or(0);
+        flog[..reg]
+            .iter()
+            .filter(|e| e.kind == Kind::Dep && e.stage == crate::sched::DEP_CLAIM)
+            .map(|e| (e.b as usize).min(scn.vals.len().max(1)))
+            .sum::<usize>()
+    };
+    let base_chunk = fr.info.chunk;
     for (slot, cnt) in per_slot {
         if slot == 0 {
             continue;
@@ -772,6 +785,15 @@ fn c10(scn: &Scenario, rf: &Ref, ex: &Exec, out: &mut Vec<Finding>) {
             out.push(f("late-worker-works", format!("a worker registered after early exit was published still processed {} elements", cnt)));
         } else if cnt > c {
             out.push(f("work-after-exit", format!("after early exit was published thread {} let {} more elements enter the pipeline; its chunk size is {}", slot, cnt, c)));
+        } else if cnt > base_chunk.max(claimed_before_reg(slot)) && cnt > 8 {
+            let claimed_before = claimed_before_reg(slot);
+            out.push(f(
+                "work-after-exit-scales-with-input",
+                format!(
+                    "after early exit was published thread {} let {} more elements enter the pipeline, more than everything claimed from the source before that thread was spawned ({}) and than the resolved chunk size ({}): its chunk ({}) was sized by the input that was left",
+                    slot, cnt, claimed_before, base_chunk, c
+                ),
+            ));
         }
     }
 }
